@@ -5,6 +5,7 @@
 package main
 
 import (
+	"sync"
 	"context"
 	"fmt"
 	"io"
@@ -843,6 +844,142 @@ func specRefill(maxLen int) seqmc.Spec {
 	}}
 }
 
+// ---- a POLL subscription on the fake client across SetConfig
+
+type pollStream struct {
+	gpb.GNMI_SubscribeServer
+	mu    sync.Mutex
+	sent  []*gpb.SubscribeResponse
+	n     int
+	reqs  chan *gpb.SubscribeRequest
+	syncC chan struct{}
+}
+
+func (s *pollStream) Recv() (*gpb.SubscribeRequest, error) {
+	s.n++
+	if s.n == 1 {
+		return &gpb.SubscribeRequest{Request: &gpb.SubscribeRequest_Subscribe{Subscribe: &gpb.SubscriptionList{Mode: gpb.SubscriptionList_POLL}}}, nil
+	}
+	r, ok := <-s.reqs
+	if !ok {
+		return nil, io.EOF
+	}
+	return r, nil
+}
+func (s *pollStream) Send(r *gpb.SubscribeResponse) error {
+	s.mu.Lock()
+	s.sent = append(s.sent, r)
+	s.mu.Unlock()
+	if r.GetSyncResponse() {
+		s.syncC <- struct{}{}
+	}
+	return nil
+}
+func (s *pollStream) Context() context.Context     { return context.Background() }
+func (s *pollStream) SetHeader(metadata.MD) error  { return nil }
+func (s *pollStream) SendHeader(metadata.MD) error { return nil }
+func (s *pollStream) SetTrailer(metadata.MD)       {}
+
+// specPollSetConfig: one POLL subscription of the fake client, polled 1-3
+// times, with the configuration replaced (SetConfig) before the k-th poll by
+// one with more / fewer values and an earlier / equal / later latest timestamp:
+// in every round the sync marker comes after the first emission of every value
+// of the configuration in force, and every value is emitted once.
+func specPollSetConfig() seqmc.Spec {
+	mkv := func(name string, ts int64) *fpb.Value {
+		return &fpb.Value{Path: []string{name}, Repeat: 1, Timestamp: &fpb.Timestamp{Timestamp: ts}, Value: &fpb.Value_IntValue{IntValue: &fpb.IntValue{Value: 1}}}
+	}
+	type sc struct {
+		first, second [][2]interface{} // (name, ts)
+		polls, swapAt int              // SetConfig before poll #swapAt (0 = never)
+	}
+	sets := [][][2]interface{}{
+		{{"v0", int64(5)}},
+		{{"v0", int64(5)}, {"v1", int64(3)}},
+		{{"v0", int64(5)}, {"v1", int64(5)}},
+		{{"v0", int64(5)}, {"v1", int64(20)}},
+		{{"v0", int64(2)}, {"v1", int64(9)}, {"v2", int64(30)}, {"v3", int64(40)}},
+	}
+	var cases []sc
+	for _, a := range sets {
+		for _, b := range sets {
+			for polls := 1; polls <= 3; polls++ {
+				for swap := 0; swap <= polls; swap++ {
+					cases = append(cases, sc{a, b, polls, swap})
+				}
+			}
+		}
+	}
+	build := func(vs [][2]interface{}) *fpb.Config {
+		c := &fpb.Config{Target: "t", Seed: 1}
+		for _, v := range vs {
+			c.Values = append(c.Values, mkv(v[0].(string), v[1].(int64)))
+		}
+		return c
+	}
+	return seqmc.Spec{Name: fmt.Sprintf("fake client, one POLL subscription polled 1-3 times with the configuration replaced before the k-th poll (%d cases)", len(cases)), N: len(cases), Run: func(i int) (string, bool, []seqmc.Violation) {
+		c := cases[i]
+		desc := fmt.Sprintf("config %v, %d polls, SetConfig(%v) before poll #%d (0 = never)", c.first, c.polls, c.second, c.swapAt)
+		cl := fgnmi.NewClient(build(c.first))
+		st := &pollStream{reqs: make(chan *gpb.SubscribeRequest), syncC: make(chan struct{}, 16)}
+		done := make(chan error, 1)
+		go func() { done <- cl.Run(st) }()
+		wait := func() bool {
+			select {
+			case <-st.syncC:
+				return true
+			case <-time.After(120 * time.Second):
+				return false
+			}
+		}
+		inForce := [][][2]interface{}{c.first}
+		if !wait() {
+			return desc, true, vio("poll-hang", "%s: no sync_response for the initial round within 120s", desc)
+		}
+		for p := 1; p <= c.polls; p++ {
+			cur := inForce[len(inForce)-1]
+			if p == c.swapAt {
+				cl.SetConfig(build(c.second))
+				cur = c.second
+			}
+			inForce = append(inForce, cur)
+			st.reqs <- &gpb.SubscribeRequest{Request: &gpb.SubscribeRequest_Poll{Poll: &gpb.Poll{}}}
+			if !wait() {
+				return desc, true, vio("poll-hang", "%s: no sync_response for poll #%d within 120s", desc, p)
+			}
+		}
+		close(st.reqs)
+		cl.Close()
+		st.mu.Lock()
+		sent := append([]*gpb.SubscribeResponse{}, st.sent...)
+		st.mu.Unlock()
+		round := 0
+		seen := map[string]int{}
+		for _, r := range sent {
+			if r.GetSyncResponse() {
+				if round >= len(inForce) {
+					return desc, true, vio("agent-sync-count", "%s: more sync responses than rounds", desc)
+				}
+				for _, v := range inForce[round] {
+					if seen[v[0].(string)] != 1 {
+						return desc, true, vio("agent-sync-before-first-emission", "%s: round %d: sync_response sent when %s had been emitted %d times (every value of the configuration in force once, before the sync)", desc, round, v[0], seen[v[0].(string)])
+					}
+				}
+				round++
+				seen = map[string]int{}
+				continue
+			}
+			for _, u := range r.GetUpdate().GetUpdate() {
+				seen[u.Path.Element[0]]++
+			}
+		}
+		if round != c.polls+1 {
+			return desc, true, vio("agent-sync-count", "%s: %d sync responses for %d rounds", desc, round, c.polls+1)
+		}
+		return desc, true, nil
+	}}
+}
+
 type harness struct{}
 
 func (harness) Property() string { return "C20" }
@@ -851,7 +988,7 @@ func (harness) Specs(tier string) []seqmc.Spec {
 	if tier == "thorough" {
 		n = 8
 	}
-	return []seqmc.Spec{specGrid(tier), specFixed(), specRefill(n)}
+	return []seqmc.Spec{specGrid(tier), specFixed(), specRefill(n), specPollSetConfig()}
 }
 
 func main() { seqmc.Main(harness{}) }
